@@ -14,15 +14,20 @@ package control
 // package-level variables that exist only in the copy of control/bpf_stub.go that checks/c10.py generates on
 // every run (overlay REPLACE; /repo is not touched).  DomainRoutingMap is a non-nil zero-value *ebpf.Map.
 //
-// Two streams, both replayed by lean/DaeVerif/C10/Main.lean:
-//   c10t : tnew | tupd <owner> <bmlen> <bits> <ans>* | trm <owner> | tnil upd|rm | tdump
-//   c10c : cnew <opt> <optTtl> <max> | put <key> <ttl> <fixedTtl|-> <bits> <ans>* | del <key> |
-//          fam <base> <observed order>* | look <key> <ignoreFixed> | jan <observed order>* | sleep <ns> |
-//          work | touch <key> | hot <key> <packed> | cdump
-// Virtual time: every cache history runs inside a testing/synctest bubble.
+// Two streams, both replayed by lean/DaeVerif/C10/Main.lean. Every answer line is `strict ## drift`:
+// strict = what the property speaks about (call accepted or not, fingerprint of the whole table, cache
+// contents, mirror flag), drift = bookkeeping (batch shapes, refresh queue, expiry/refresh/LRU policy, stamps).
+//   c10t : tnew | tupd <ok|uf|df> <owner> <bmlen> <bits> <ans>* | trm <ok|uf|df> <owner> | tnil upd|rm |
+//          tnobpf upd|rm <owner> | tdump            (uf/df: the update / delete batch syscall fails)
+//   c10c : cnew <opt> <optTtl> <max> | put <key|~> <fqdn> <qtype> <ttl> <fixedTtl|-> <bits> <ans>* | del <key> |
+//          fam <base> <observed order>* | look <key> <ignoreFixed> <evicted> <queued> | jan <observed order>* |
+//          sleep <ns> | work | touch <key> | hot <key> <packed> <evicted> <queued> | reload <key=bits>* | cdump
+// Virtual time: every cache history runs inside a testing/synctest bubble; every cache op starts 1 ns after
+// the previous one (no equal LRU stamps => runs are reproducible for a seed).
 
 import (
 	"encoding/hex"
+	"errors"
 	"fmt"
 	"io"
 	"net"
@@ -37,6 +42,7 @@ import (
 	"unsafe"
 
 	"github.com/cilium/ebpf"
+	"github.com/daeuniverse/dae/common/consts"
 	dnsmessage "github.com/miekg/dns"
 	"github.com/sirupsen/logrus"
 )
@@ -54,11 +60,17 @@ type c10Call struct {
 }
 
 type c10Observer struct {
-	shadow map[[16]byte][32]uint32 // what domain_routing_map holds if every batch succeeds
+	shadow map[[16]byte][32]uint32 // what domain_routing_map holds
 	cur    *c10Call
 	calls  []*c10Call
 	stats  *VStats
+	// one-shot failure injection: the next batch update / delete syscall fails (atomically)
+	failUpd, failDel bool
+	// a delete batch named a key the table does not hold: on a real kernel the batch stops there
+	badDelete bool
 }
+
+var errC10Injected = errors.New("c10: injected batch failure")
 
 func c10KeyBytes(k [4]uint32) [16]byte { return *(*[16]byte)(unsafe.Pointer(&k)) }
 
@@ -71,6 +83,11 @@ func (o *c10Observer) install() {
 		}
 		if o.cur == nil {
 			panic("c10: batch update outside an observed call")
+		}
+		if o.failUpd {
+			o.failUpd = false
+			o.stats.Inc("inject.update_batch_failed")
+			return 0, errC10Injected
 		}
 		o.cur.nUpd++
 		o.cur.order = append(o.cur.order, "u")
@@ -89,11 +106,19 @@ func (o *c10Observer) install() {
 		if o.cur == nil {
 			panic("c10: batch delete outside an observed call")
 		}
+		if o.failDel {
+			o.failDel = false
+			o.stats.Inc("inject.delete_batch_failed")
+			return 0, errC10Injected
+		}
 		o.cur.nDel++
 		o.cur.order = append(o.cur.order, "d")
 		for _, k := range ks {
 			kb := c10KeyBytes(k)
 			o.cur.dels = append(o.cur.dels, kb)
+			if _, has := o.shadow[kb]; !has {
+				o.badDelete = true
+			}
 			delete(o.shadow, kb)
 		}
 		return len(ks), nil
@@ -110,10 +135,8 @@ func (o *c10Observer) begin() { o.cur = &c10Call{ups: map[[16]byte][32]uint32{}}
 func (o *c10Observer) end(owner string, keep bool) {
 	c := o.cur
 	o.cur = nil
-	if !keep {
-		if len(c.ups) != 0 || len(c.dels) != 0 {
-			panic("c10: batches were sent by a call that reported an error / had no cache")
-		}
+	o.failUpd, o.failDel = false, false
+	if !keep && len(c.ups) == 0 && len(c.dels) == 0 {
 		return
 	}
 	c.owner = owner
@@ -173,6 +196,20 @@ func (o *c10Observer) takeCalls() string {
 		sb.WriteString("call(" + c10OwnerTok(c.owner) + "|u:" + strings.Join(ups, ",") + "|d:" + strings.Join(dels, ",") + ")")
 	}
 	return sb.String()
+}
+
+// fingerprint of the whole table (FNV-1a 64 of its canonical string), compared on every line
+func (o *c10Observer) tableFp() string {
+	h := uint64(14695981039346656037)
+	for _, b := range []byte(o.kernelStr()) {
+		h = (h ^ uint64(b)) * 1099511628211
+	}
+	bad := ""
+	if o.badDelete {
+		o.badDelete = false
+		bad = " DELETE-OF-ABSENT-KEY"
+	}
+	return fmt.Sprintf("k=%d t=%d%s", len(o.shadow), h, bad)
 }
 
 func (o *c10Observer) kernelStr() string {
@@ -266,8 +303,6 @@ type c10Gen struct {
 var c10SpecialAddrs = []string{
 	"4:01020304", "m:01020304", "6:00000000000000000000ffff01020304", // one kernel key, three spellings
 	"4:00000000", "6:00000000000000000000000000000000", // unspecified: never listed
-	"m:00000000",                         // ::ffff:0.0.0.0 is NOT unspecified for netip
-	"6:00000000000000000000ffff00000000", // same key, as AAAA
 	"4:ffffffff", "6:ffffffffffffffffffffffffffffffff",
 	"6:00000000000000000000000000000001", "6:20010db8000000000000000000000001",
 	"4:0a000001", "4:0a000002", "4:c0a80101", "6:fe800000000000000000000000000001",
@@ -327,18 +362,26 @@ func (g *c10Gen) bitmap() string {
 
 func (g *c10Gen) answers() []string {
 	var n int
-	switch g.r.Intn(10) {
-	case 0:
+	switch x := g.r.Intn(100); {
+	case x < 10:
 		n = 0
 		g.stats.Inc("gen.answers.empty")
-	case 1, 2, 3:
+	case x < 40:
 		n = 1
-	default:
+	case x < 90:
 		n = g.r.Range(1, 5)
+	case x < 99:
+		n = g.r.Range(6, 64) // CDN-sized RRsets
+		g.stats.Inc("gen.answers.large_6_64")
+	default:
+		n = 300
+		g.stats.Inc("gen.answers.huge_300")
 	}
 	var res []string
 	for i := 0; i < n; i++ {
 		switch {
+		case n > 5 && g.r.Chance(0.8): // large sets need more addresses than the pool has
+			res = append(res, fmt.Sprintf("4:%08x", 0x0b000000+uint32(g.r.Intn(400))+1))
 		case g.r.Chance(0.05):
 			res = append(res, "bad")
 			g.stats.Inc("gen.answers.bad_ip")
@@ -383,17 +426,31 @@ func c10NewCore() *controlPlaneCore {
 	return core
 }
 
+// error class: drift only (the property does not speak about error wording); strict is ok / err
 func c10ErrTok(err error) string {
 	switch {
 	case err == nil:
 		return "ok"
+	case errors.Is(err, errC10Injected) && strings.Contains(err.Error(), "update"):
+		return "update-failed"
+	case errors.Is(err, errC10Injected):
+		return "delete-failed"
 	case strings.Contains(err.Error(), "domain bitmap length"):
 		return "bitmap-len"
 	case strings.Contains(err.Error(), "empty domain routing owner key"):
 		return "empty-owner"
 	}
-	return "err:" + err.Error()
+	return "other:" + err.Error()
 }
+
+func c10ErrBit(err error) string {
+	if err == nil {
+		return "ok"
+	}
+	return "err"
+}
+
+func c10Line(strict, drift string) string { return strict + " ## " + drift }
 
 func c10SharedAddrs(t *domainRoutingTracker) int {
 	t.mu.Lock()
@@ -444,21 +501,33 @@ func c10RunTrackerStream(t *testing.T, stats *VStats) {
 	g := &c10Gen{r: r, stats: stats}
 	histories := 400
 	if VThorough() {
-		histories = 20000
+		histories = 16000
 	}
 	for h := 0; h < histories; h++ {
 		core := c10NewCore()
 		obs.shadow = map[[16]byte][32]uint32{}
-		st.Emit("tnew", "ok")
+		st.Emit("tnew", c10Line("ok", ""))
 		g.newPools()
 		nOwners := r.Range(1, 6)
 		nOps := r.Range(1, 60)
 		if r.Chance(0.2) {
 			nOps = r.Range(1, 6)
 		}
+		inject := h%3 == 2 // every third history has failing batch syscalls
 		stats.Inc("t.histories")
+		if inject {
+			stats.Inc("t.histories_with_failure_injection")
+		}
 		live := map[string][]string{} // owner -> last answers (only for statistics)
 		everShared := false
+		call := func(f func() error, owner string, keepOnNil bool) string {
+			return VRecover(func() string {
+				obs.begin()
+				err := f()
+				obs.end(owner, err == nil && keepOnNil)
+				return c10Line("e="+c10ErrBit(err)+" "+obs.tableFp(), "class="+c10ErrTok(err)+" "+obs.takeCalls())
+			})
+		}
 		for i := 0; i < nOps; i++ {
 			if c10SharedAddrs(core.domainRouting) > 0 {
 				everShared = true
@@ -473,8 +542,15 @@ func c10RunTrackerStream(t *testing.T, stats *VStats) {
 			if owner == "~" {
 				realOwner = ""
 			}
+			oc := "ok"
+			if inject && r.Chance(0.25) {
+				oc = []string{"uf", "df"}[r.Intn(2)]
+			}
+			arm := func() {
+				obs.failUpd, obs.failDel = oc == "uf", oc == "df"
+			}
 			switch x := r.Intn(100); {
-			case x < 60:
+			case x < 58:
 				words := 32
 				if r.Chance(0.03) {
 					words = []int{0, 1, 31, 33}[r.Intn(4)]
@@ -491,85 +567,121 @@ func c10RunTrackerStream(t *testing.T, stats *VStats) {
 				for _, a := range ans {
 					cache.Answer = append(cache.Answer, c10MakeAns(a, "h.example."))
 				}
-				op := fmt.Sprintf("tupd %s %d %s %s", owner, words, bm, strings.Join(ans, " "))
-				out := VRecover(func() string {
-					obs.begin()
-					err := core.BatchUpdateDomainRouting(cache)
-					obs.end(realOwner, err == nil)
-					return "e=" + c10ErrTok(err) + " " + obs.takeCalls()
-				})
+				op := strings.TrimRight(fmt.Sprintf("tupd %s %s %d %s %s", oc, owner, words, bm, strings.Join(ans, " ")), " ")
+				arm()
+				out := call(func() error { return core.BatchUpdateDomainRouting(cache) }, realOwner, true)
 				stats.Inc("t.op.upd")
+				if oc != "ok" {
+					stats.Inc("t.op.upd_" + oc)
+					if r.Bool() { // and the retry, with working syscalls
+						stats.Inc("t.op.retry_after_failure")
+						st.Emit(op, out)
+						op = strings.Replace(op, "tupd "+oc, "tupd ok", 1)
+						out = call(func() error { return core.BatchUpdateDomainRouting(cache) }, realOwner, true)
+					}
+				}
 				stats.Sample(op)
-				st.Emit(strings.TrimRight(op, " "), out)
-			case x < 88:
+				st.Emit(op, out)
+			case x < 86:
 				cache := &DnsCache{RouteOwnerKey: realOwner}
 				delete(live, owner)
-				out := VRecover(func() string {
-					obs.begin()
-					err := core.BatchRemoveDomainRouting(cache)
-					obs.end(realOwner, err == nil)
-					return "e=" + c10ErrTok(err) + " " + obs.takeCalls()
-				})
+				arm()
+				out := call(func() error { return core.BatchRemoveDomainRouting(cache) }, realOwner, true)
 				stats.Inc("t.op.rm")
-				st.Emit("trm "+owner, out)
-			case x < 91:
+				if oc != "ok" {
+					stats.Inc("t.op.rm_" + oc)
+				}
+				st.Emit("trm "+oc+" "+owner, out)
+			case x < 89:
 				which := []string{"upd", "rm"}[r.Intn(2)]
-				out := VRecover(func() string {
-					obs.begin()
-					var err error
+				out := call(func() error {
 					if which == "upd" {
-						err = core.BatchUpdateDomainRouting(nil)
-					} else {
-						err = core.BatchRemoveDomainRouting(nil)
+						return core.BatchUpdateDomainRouting(nil)
 					}
-					obs.end("", false)
-					return "e=" + c10ErrTok(err) + " " + obs.takeCalls()
-				})
+					return core.BatchRemoveDomainRouting(nil)
+				}, "", false)
 				stats.Inc("t.op.nil_cache")
 				st.Emit("tnil "+which, out)
+			case x < 91:
+				// PeekBpf() == nil: the call is dropped before the tracker is touched
+				which := []string{"upd", "rm"}[r.Intn(2)]
+				saved := core.bpf.Load()
+				core.bpf.Store(nil)
+				cache := &DnsCache{RouteOwnerKey: realOwner, DomainBitmap: c10ParseBits("5", 32), Answer: []dnsmessage.RR{c10MakeAns("4:01020304", "h.example.")}}
+				out := call(func() error {
+					if which == "upd" {
+						return core.BatchUpdateDomainRouting(cache)
+					}
+					return core.BatchRemoveDomainRouting(cache)
+				}, realOwner, false)
+				core.bpf.Store(saved)
+				stats.Inc("t.op.no_bpf_objects")
+				st.Emit("tnobpf "+which+" "+owner, out)
 			default:
-				st.Emit("tdump", c10TrackerStr(core.domainRouting)+" "+obs.kernelStr())
+				st.Emit("tdump", c10Line(obs.kernelStr(), c10TrackerStr(core.domainRouting)))
 				stats.Inc("t.op.dump")
 			}
 		}
-		// always finish with a dump, and count overlap
 		if everShared {
 			stats.Inc("t.histories_with_shared_address")
 		}
-		st.Emit("tdump", c10TrackerStr(core.domainRouting)+" "+obs.kernelStr())
+		st.Emit("tdump", c10Line(obs.kernelStr(), c10TrackerStr(core.domainRouting)))
 	}
 }
 
 // ---------------------------------------------------------------------------------------------
 // stream C : the DNS cache layer with the production callback wiring
 
+// stands in for the routing matcher's domain matcher (C11's subject): the bitmap is chosen by the generator;
+// like the real matcher it returns a fresh slice per call.
+type c10Matcher struct {
+	next   []uint32            // used by NewCache (put)
+	byFqdn map[string][]uint32 // used by the reload replay; nil outside a reload
+}
+
+func (m *c10Matcher) AddSet(int, []string, consts.RoutingDomainKey) {}
+func (m *c10Matcher) Build() error                                  { return nil }
+func (m *c10Matcher) MatchDomainBitmap(domain string) []uint32 {
+	src := m.next
+	if m.byFqdn != nil {
+		src = m.byFqdn[domain]
+	}
+	return append([]uint32(nil), src...)
+}
+
 type c10Cache struct {
-	ctrl       *DnsController
-	core       *controlPlaneCore
-	obs        *c10Observer
-	t0         time.Time
-	nextBitmap []uint32
-	order      []string // owners for which a delete callback ran during the current op
-	stale      bool
+	ctrl    *DnsController // the current generation's facade (request paths)
+	bg      *DnsController // the facade the background goroutines (janitor, refresh worker) are bound to
+	core    *controlPlaneCore
+	plane   *ControlPlane
+	matcher *c10Matcher
+	obs     *c10Observer
+	log     *logrus.Logger
+	t0      time.Time
+	cfg     [3]int
+	fixed   map[string]int
+	order   []string // keys for which a delete callback ran during the current op
+	synced  []string // keys for which an access callback ran during the current op
+	gen     int
 	// race probe only: run once between the cache-map mutation and the tracker sync of the next put / removal
 	midAccess func()
 	midDelete func()
 	stats     *VStats
 }
 
-func c10NewCacheWorld(obs *c10Observer, stats *VStats, optEnabled bool, optTtl, maxSize int) *c10Cache {
-	w := &c10Cache{obs: obs, stats: stats, t0: time.Now()}
-	obs.shadow = map[[16]byte][32]uint32{}
-	log := logrus.New()
-	log.SetOutput(io.Discard)
-	w.core = c10NewCore()
-	w.core.log = log
-	plane := &ControlPlane{core: w.core, log: log}
-	// the production wiring: which DnsController callback reaches which Batch* function
+// a control plane of one generation: production dnsControllerOption() wiring (wrapped for observation only),
+// production NewCache closure over a stub domain matcher.
+func (w *c10Cache) newGeneration(bpf *bpfObjects) (*controlPlaneCore, *ControlPlane, *DnsControllerOption) {
+	obs := w.obs
+	core := &controlPlaneCore{domainRouting: newDomainRoutingTracker(), log: w.log}
+	core.bpf.Store(bpf)
+	plane := &ControlPlane{core: core, log: w.log}
+	plane.routingMatcher = &RoutingMatcher{domainMatcher: w.matcher}
+	plane.dnsOptimisticCache = w.cfg[0] == 1
+	plane.dnsOptimisticCacheTtl = w.cfg[1]
+	plane.dnsMaxCacheSize = w.cfg[2]
+	plane.dnsFixedDomainTtl = w.fixed
 	opt := plane.dnsControllerOption()
-	opt.OptimisticCache = optEnabled
-	opt.OptimisticCacheTtl = optTtl
-	opt.MaxCacheSize = maxSize
 	if access := opt.CacheAccessCallback; access != nil {
 		opt.CacheAccessCallback = func(c *DnsCache) error {
 			if f := w.midAccess; f != nil {
@@ -583,6 +695,9 @@ func c10NewCacheWorld(obs *c10Observer, stats *VStats, optEnabled bool, optTtl, 
 				owner = c.RouteOwnerKey
 			}
 			obs.end(owner, err == nil && c != nil)
+			if err == nil && c != nil {
+				w.synced = append(w.synced, owner)
+			}
 			return err
 		}
 	}
@@ -615,29 +730,33 @@ func c10NewCacheWorld(obs *c10Observer, stats *VStats, optEnabled bool, optTtl, 
 			return err
 		}
 	}
-	// production NewCache takes the bitmap from the domain matcher (C11's subject); here the generator
-	// chooses it, everything else is the same shape.
-	opt.NewCache = func(fqdn string, answers, ns, extra []dnsmessage.RR, deadline time.Time, originalDeadline time.Time) (*DnsCache, error) {
-		return &DnsCache{
-			DomainBitmap:     w.nextBitmap,
-			NS:               ns,
-			Extra:            extra,
-			Answer:           answers,
-			Deadline:         deadline,
-			OriginalDeadline: originalDeadline,
-		}, nil
+	return core, plane, opt
+}
+
+func c10NewCacheWorld(obs *c10Observer, stats *VStats, optEnabled bool, optTtl, maxSize int) *c10Cache {
+	w := &c10Cache{obs: obs, stats: stats, t0: time.Now(), matcher: &c10Matcher{}, fixed: map[string]int{}}
+	w.cfg = [3]int{0, optTtl, maxSize}
+	if optEnabled {
+		w.cfg[0] = 1
 	}
+	obs.shadow = map[[16]byte][32]uint32{}
+	w.log = logrus.New()
+	w.log.SetOutput(io.Discard)
+	var opt *DnsControllerOption
+	w.core, w.plane, opt = w.newGeneration(&bpfObjects{bpfMaps: bpfMaps{DomainRoutingMap: new(ebpf.Map)}})
 	// a controller without its background goroutines: janitor runs are explicit `jan` ops, the refresh
-	// worker's channel is drained by explicit `work` ops (processBpfUpdateTask is the real function).
-	ctrl := &DnsController{dnsControllerStore: newDnsControllerStore(), log: log, dnsForwarderIdleTTL: dnsForwarderIdleTTL}
+	// worker's channel is drained by explicit `work` ops (evictExpiredDnsCache / processBpfUpdateTask are the
+	// real functions, called on the facade the goroutines would be bound to).
+	ctrl := &DnsController{dnsControllerStore: newDnsControllerStore(), log: w.log, dnsForwarderIdleTTL: dnsForwarderIdleTTL}
 	if err := ctrl.TryUpdateRuntime(opt, nil); err != nil {
 		panic(err)
 	}
 	ctrl.bpfUpdateOnce.Do(func() {
-		ctrl.bpfUpdateCh = make(chan *bpfUpdateTask, 1024)
+		ctrl.bpfUpdateCh = make(chan *bpfUpdateTask, 1024) // bpfUpdateQueueSize
 		ctrl.bpfUpdateStop = make(chan struct{})
 	})
-	w.ctrl = ctrl
+	w.ctrl, w.bg = ctrl, ctrl
+	w.plane.dnsController = ctrl
 	return w
 }
 
@@ -693,25 +812,26 @@ func c10B(b bool) string {
 	return "0"
 }
 
-func (w *c10Cache) summary() string {
+func (w *c10Cache) summary(extra string) string {
 	if c10SharedAddrs(w.core.domainRouting) > 0 {
 		w.stats.Inc("c.ops_ending_with_a_shared_address")
 	}
 	// what the evictor goroutine would do with anything queued for the remove callback (nothing is ever
 	// queued while dnsControllerOption leaves CacheRemoveCallback unset)
-	for len(w.ctrl.evictorQ) > 0 {
-		w.ctrl.invokeCacheRemoveCallback(<-w.ctrl.evictorQ)
+	for len(w.bg.evictorQ) > 0 {
+		w.bg.invokeCacheRemoveCallback(<-w.bg.evictorQ)
 	}
-	w.ctrl.drainEvictorSpill()
+	w.bg.drainEvictorSpill()
 	ok, n := w.mirror()
 	if !ok {
 		w.stats.Inc("c.mirror_broken")
 	}
-	return fmt.Sprintf("%s n=%d p=%d k=%d m=%s", w.obs.takeCalls(), n, len(w.ctrl.bpfUpdateCh), len(w.obs.shadow), c10B(ok))
+	return c10Line(fmt.Sprintf("n=%d %s m=%s", n, w.obs.tableFp(), c10B(ok)),
+		fmt.Sprintf("%s%s p=%d", extra, w.obs.takeCalls(), len(w.ctrl.bpfUpdateCh)))
 }
 
 func (w *c10Cache) dump() string {
-	var ents []string
+	var ents, stamps []string
 	w.ctrl.dnsCache.Range(func(k, v any) bool {
 		c := v.(*DnsCache)
 		snap, err := buildDomainRoutingOwnerSnapshot(c)
@@ -725,11 +845,13 @@ func (w *c10Cache) dump() string {
 			ips = append(ips, hex.EncodeToString(kb[:]))
 		}
 		sort.Strings(ips)
-		ents = append(ents, fmt.Sprintf("%s:%s:%s:dl=%d:odl=%d:sync=%d:acc=%d", k.(string), c10Bits(snap.bitmap.Bitmap[:]), strings.Join(ips, ","),
+		ents = append(ents, fmt.Sprintf("%s:%s:%s", k.(string), c10Bits(snap.bitmap.Bitmap[:]), strings.Join(ips, ",")))
+		stamps = append(stamps, fmt.Sprintf("%s:dl=%d:odl=%d:sync=%d:acc=%d", k.(string),
 			c.Deadline.Sub(w.t0).Nanoseconds(), c.OriginalDeadline.Sub(w.t0).Nanoseconds(), w.rel(c.lastRouteSyncNano.Load()), w.rel(c.lastAccessNano.Load())))
 		return true
 	})
 	sort.Strings(ents)
+	sort.Strings(stamps)
 	// peek at the queue without consuming it
 	var pend []string
 	n := len(w.ctrl.bpfUpdateCh)
@@ -738,12 +860,13 @@ func (w *c10Cache) dump() string {
 		pend = append(pend, fmt.Sprintf("%s@%d", task.cache.RouteOwnerKey, task.now.Sub(w.t0).Nanoseconds()))
 		w.ctrl.bpfUpdateCh <- task
 	}
-	return fmt.Sprintf("now=%d cache{%s} pending[%s] %s %s", time.Since(w.t0).Nanoseconds(), strings.Join(ents, " "), strings.Join(pend, " "),
-		c10TrackerStr(w.core.domainRouting), w.obs.kernelStr())
+	return c10Line(fmt.Sprintf("cache{%s} %s", strings.Join(ents, " "), w.obs.kernelStr()),
+		fmt.Sprintf("now=%d stamps{%s} pending[%s] %s", time.Since(w.t0).Nanoseconds(), strings.Join(stamps, " "), strings.Join(pend, " "),
+			c10TrackerStr(w.core.domainRouting)))
 }
 
 type c10Key struct {
-	name  string // fqdn
+	name  string // canonical fqdn
 	qtype uint16
 	scope string
 }
@@ -752,8 +875,9 @@ func (k c10Key) base() string { return k.name + strconv.Itoa(int(k.qtype)) }
 func (k c10Key) key() string  { return k.base() + k.scope }
 func (k c10Key) host() string { return strings.TrimSuffix(k.name, ".") }
 
-var c10Names = []string{"a.com.", "b.com.", "c.net."}
+var c10Names = []string{"a.com.", "b.com.", "c.net.", "a.com.x.org."}
 var c10Scopes = []string{"", "|upstream@udp://1.1.1.1:53", "|asis@9.9.9.9:53"}
+var c10Qtypes = []uint16{dnsmessage.TypeA, dnsmessage.TypeAAAA, dnsmessage.TypeA, dnsmessage.TypeAAAA, dnsmessage.TypeTXT, dnsmessage.TypeHTTPS}
 
 type c10Hist struct {
 	w       *c10Cache
@@ -761,48 +885,85 @@ type c10Hist struct {
 	r       *VRand
 	g       *c10Gen
 	stats   *VStats
-	fixed   map[string]int
 	maxSize int
 	lastTtl int
 }
 
-func (h *c10Hist) put(k c10Key, ttl int, bm string, ans []string) {
+// every op starts one (virtual) nanosecond after the previous one
+func (h *c10Hist) tick() {
+	time.Sleep(time.Nanosecond)
+	h.w.order, h.w.synced = nil, nil
+}
+
+// mixed-case spelling of a host, with or without the trailing dot (what a client may ask)
+func (h *c10Hist) spell(name string) string {
+	s := name
+	if h.r.Chance(0.3) {
+		b := []byte(s)
+		for i := range b {
+			if h.r.Chance(0.4) && b[i] >= 'a' && b[i] <= 'z' {
+				b[i] -= 32
+			}
+		}
+		s = string(b)
+		h.stats.Inc("gen.host.mixed_case")
+	}
+	if h.r.Bool() {
+		s = strings.TrimSuffix(s, ".")
+	}
+	return s
+}
+
+func (h *c10Hist) put(k c10Key, ttl int, bm string, ans []string, unkeyed bool) {
+	h.tick()
 	w := h.w
 	h.lastTtl = ttl
 	fttlTok := "-"
-	if f, ok := h.fixed[k.host()]; ok {
+	if f, ok := w.fixed[k.host()]; ok {
 		fttlTok = strconv.Itoa(f)
 	}
 	var rrs []dnsmessage.RR
 	for _, a := range ans {
 		rrs = append(rrs, c10MakeAns(a, k.name))
 	}
-	w.nextBitmap = c10ParseBits(bm, 32)
-	op := strings.TrimRight(fmt.Sprintf("put %s %d %s %s %s", k.key(), ttl, fttlTok, bm, strings.Join(ans, " ")), " ")
+	w.matcher.next = c10ParseBits(bm, 32)
+	keyTok := k.key()
+	if unkeyed {
+		keyTok = "~"
+	}
+	host := h.spell(k.name)
+	op := strings.TrimRight(fmt.Sprintf("put %s %s %d %d %s %s %s", keyTok, k.name, k.qtype, ttl, fttlTok, bm, strings.Join(ans, " ")), " ")
 	out := VRecover(func() string {
-		if rt := w.ctrl.runtime(); rt != nil {
-			rt.fixedDomainTtl = h.fixed // fixed_domain_ttl of the running configuration
+		var err error
+		if unkeyed {
+			err = w.ctrl.UpdateDnsCacheTtl(host, k.qtype, rrs, nil, nil, ttl)
+		} else {
+			err = w.ctrl.UpdateDnsCacheTtlWithKey(k.key(), host, k.qtype, rrs, nil, nil, ttl)
 		}
-		if err := w.ctrl.UpdateDnsCacheTtlWithKey(k.key(), k.name, k.qtype, rrs, nil, nil, ttl); err != nil {
+		if err != nil {
 			return "err:" + err.Error()
 		}
-		return w.summary()
+		return w.summary("")
 	})
 	h.stats.Inc("c.op.put")
+	if unkeyed {
+		h.stats.Inc("c.op.put_unkeyed")
+	}
 	h.stats.Sample(op)
 	h.st.Emit(op, out)
 }
 
 func (h *c10Hist) del(k c10Key) {
-	out := VRecover(func() string { h.w.ctrl.RemoveDnsRespCache(k.key()); return h.w.summary() })
+	h.tick()
+	out := VRecover(func() string { h.w.ctrl.RemoveDnsRespCache(k.key()); return h.w.summary("") })
 	h.stats.Inc("c.op.del")
 	h.st.Emit("del "+k.key(), out)
 }
 
 func (h *c10Hist) fam(k c10Key) {
+	h.tick()
 	w := h.w
-	w.order = nil
-	out := VRecover(func() string { w.ctrl.RemoveDnsRespCacheFamily(k.base()); return "legal=1 " + w.summary() })
+	out := VRecover(func() string { w.ctrl.RemoveDnsRespCacheFamily(k.base()); return w.summary("legal=1 ") })
 	if len(w.order) > 1 {
 		h.stats.Inc("c.op.fam_removed_several_scopes")
 	}
@@ -811,25 +972,28 @@ func (h *c10Hist) fam(k c10Key) {
 }
 
 func (h *c10Hist) look(k c10Key, ig bool) {
+	h.tick()
 	w := h.w
 	before := len(w.ctrl.bpfUpdateCh)
-	w.order = nil
-	out := VRecover(func() string { w.ctrl.LookupDnsRespCache(k.key(), ig); return w.summary() })
-	if len(w.ctrl.bpfUpdateCh) > before {
+	out := VRecover(func() string { w.ctrl.LookupDnsRespCache(k.key(), ig); return w.summary("pred=1 ") })
+	queued := len(w.ctrl.bpfUpdateCh) > before
+	evicted := len(w.order) > 0
+	if queued {
 		h.stats.Inc("c.refresh_queued")
 	}
-	if len(w.order) > 0 {
+	if evicted {
 		h.stats.Inc("c.expired_on_lookup")
 	}
 	h.stats.Inc("c.op.look")
-	h.st.Emit("look "+k.key()+" "+c10B(ig), out)
+	h.st.Emit(fmt.Sprintf("look %s %s %s %s", k.key(), c10B(ig), c10B(evicted), c10B(queued)), out)
 }
 
 func (h *c10Hist) jan() {
+	h.tick()
 	w := h.w
-	w.order = nil
 	_, before := w.mirror()
-	out := VRecover(func() string { w.ctrl.evictExpiredDnsCache(time.Now()); return "legal=1 " + w.summary() })
+	// the janitor goroutine is bound to the facade that started it
+	out := VRecover(func() string { w.bg.evictExpiredDnsCache(time.Now()); return w.summary("legal=1 ") })
 	if len(w.order) > 0 {
 		h.stats.Add("c.janitor_evictions", len(w.order))
 		if h.maxSize > 0 && before > h.maxSize {
@@ -841,78 +1005,47 @@ func (h *c10Hist) jan() {
 }
 
 func (h *c10Hist) sleep(d time.Duration) {
+	h.tick()
 	time.Sleep(d)
 	h.stats.Inc("c.op.sleep")
-	h.st.Emit("sleep "+strconv.FormatInt(d.Nanoseconds(), 10), h.w.summary())
-}
-
-// the model's notion of "the queued entry is still what the cache holds": same bitmap and the same key list
-// in answer order (duplicates collapsed onto their last occurrence, as Model.dedup does). It is stricter than
-// set equality; a refresh that is stale in this sense but lists the same set is harmless (m stays 1).
-func c10OrderedSnap(c *DnsCache) (string, bool) {
-	snap, err := buildDomainRoutingOwnerSnapshot(c)
-	if err != nil {
-		return "", false
-	}
-	var keys [][16]byte
-	for _, ip := range extractIPsFromDnsCache(c) {
-		keys = append(keys, ip.As16())
-	}
-	var parts []string
-	for i, k := range keys {
-		later := false
-		for _, k2 := range keys[i+1:] {
-			if k2 == k {
-				later = true
-			}
-		}
-		if !later {
-			parts = append(parts, hex.EncodeToString(k[:]))
-		}
-	}
-	return c10Bits(snap.bitmap.Bitmap[:]) + "|" + strings.Join(parts, ","), true
+	h.st.Emit("sleep "+strconv.FormatInt(d.Nanoseconds(), 10), h.w.summary(""))
 }
 
 func (h *c10Hist) work() {
+	h.tick()
 	w := h.w
 	out := VRecover(func() string {
 		select {
-		case task := <-w.ctrl.bpfUpdateCh:
-			// is the entry this task points to still what the cache holds under its key?
-			fresh := false
-			if cur, ok := w.ctrl.dnsCache.Load(task.cache.RouteOwnerKey); ok {
-				a, okA := c10OrderedSnap(cur.(*DnsCache))
-				b, okB := c10OrderedSnap(task.cache)
-				fresh = okA && okB && a == b
-			}
-			if !fresh {
-				w.stale = true
-				h.stats.Inc("c.refresh_task_for_replaced_or_removed_entry")
-			} else {
+		case task := <-w.bg.bpfUpdateCh:
+			if cur, ok := w.ctrl.dnsCache.Load(task.cache.RouteOwnerKey); ok && cur == any(task.cache) {
 				h.stats.Inc("c.refresh_task_for_current_entry")
+			} else {
+				h.stats.Inc("c.refresh_task_for_replaced_or_removed_entry")
 			}
-			w.ctrl.processBpfUpdateTask(task, false)
+			// the worker goroutine is bound to the facade that started it
+			w.bg.processBpfUpdateTask(task, false)
 		default:
 		}
-		return w.summary()
+		return w.summary("")
 	})
 	h.stats.Inc("c.op.work")
 	h.st.Emit("work", out)
 }
 
 func (h *c10Hist) touch(k c10Key) {
+	h.tick()
 	if v, ok := h.w.ctrl.dnsCache.Load(k.key()); ok {
 		v.(*DnsCache).lastAccessNano.Store(time.Now().UnixNano()) // the one line of LookupDnsRespCache_ that feeds the LRU
 	}
 	h.stats.Inc("c.op.touch")
-	h.st.Emit("touch "+k.key(), h.w.summary())
+	h.st.Emit("touch "+k.key(), h.w.summary(""))
 }
 
 // the lookup of the DNS hot path (handle -> LookupDnsRespCache_)
 func (h *c10Hist) hot(k c10Key) {
+	h.tick()
 	w := h.w
 	before := len(w.ctrl.bpfUpdateCh)
-	w.order = nil
 	var entry *DnsCache
 	if v, ok := w.ctrl.dnsCache.Load(k.key()); ok {
 		entry = v.(*DnsCache)
@@ -921,20 +1054,62 @@ func (h *c10Hist) hot(k c10Key) {
 		msg := new(dnsmessage.Msg)
 		msg.SetQuestion(k.name, k.qtype)
 		w.ctrl.LookupDnsRespCache_(msg, k.key(), false)
-		return w.summary()
+		return w.summary("pred=1 ")
 	})
 	packed := entry != nil && entry.GetPackedResponse() != nil
-	if len(w.ctrl.bpfUpdateCh) > before {
+	queued := len(w.ctrl.bpfUpdateCh) > before
+	evicted := len(w.order) > 0
+	if queued {
 		h.stats.Inc("c.refresh_queued")
 	}
-	if len(w.order) > 0 {
+	if evicted {
 		h.stats.Inc("c.expired_on_hot_lookup")
 	}
 	if entry != nil && !packed {
 		h.stats.Inc("c.hot_lookup_without_packed_response")
 	}
 	h.stats.Inc("c.op.hot")
-	h.st.Emit("hot "+k.key()+" "+c10B(packed), out)
+	h.st.Emit(fmt.Sprintf("hot %s %s %s %s", k.key(), c10B(packed), c10B(evicted), c10B(queued)), out)
+}
+
+// reload with a reused controller: new core (fresh tracker) on the shared BPF objects, the shared map is
+// cleared, the cache cloned from the old generation is replayed into the reused controller — all real code:
+// CloneDnsCache, clearReloadDomainRoutingMap, ReuseForReload, replayDnsReloadCache (-> RestoreReloadCache).
+func (h *c10Hist) reload(newBitmaps map[string]string) {
+	h.tick()
+	w := h.w
+	var assign []string
+	out := VRecover(func() string {
+		clones := w.plane.CloneDnsCache()
+		core2, plane2, opt2 := w.newGeneration(w.core.bpf.Load())
+		if err := clearReloadDomainRoutingMap(core2.bpf.Load()); err != nil {
+			return "err:" + err.Error()
+		}
+		ctrl2, err := w.ctrl.ReuseForReload(opt2, nil)
+		if err != nil {
+			return "err:" + err.Error()
+		}
+		plane2.dnsController = ctrl2
+		plane2.pendingDnsReloadCache = clones
+		w.matcher.byFqdn = map[string][]uint32{}
+		for fqdn, bm := range newBitmaps {
+			w.matcher.byFqdn[fqdn] = c10ParseBits(bm, 32)
+		}
+		w.synced = nil
+		plane2.replayDnsReloadCache()
+		w.matcher.byFqdn = nil
+		w.core, w.plane, w.ctrl = core2, plane2, ctrl2
+		w.gen++
+		for _, key := range w.synced {
+			if v, ok := w.ctrl.dnsCache.Load(key); ok {
+				assign = append(assign, key+"="+c10Bits(v.(*DnsCache).DomainBitmap))
+			}
+		}
+		return w.summary("legal=1 ")
+	})
+	h.stats.Inc("c.op.reload")
+	h.stats.Add("c.reload_restored_entries", len(assign))
+	h.st.Emit(strings.TrimRight("reload "+strings.Join(assign, " "), " "), out)
 }
 
 func (h *c10Hist) dump() {
@@ -946,26 +1121,46 @@ func c10RunCacheHistory(st *VStream, r *VRand, obs *c10Observer, stats *VStats, 
 	optEnabled := r.Chance(0.3)
 	optTtl := []int{0, 0, 5, 60}[r.Intn(4)]
 	maxSize := []int{0, 0, 2, 3, 5}[r.Intn(5)]
+	many := r.Chance(0.1) // a larger cache: the LRU heap sees more than a handful of entries
+	if many {
+		maxSize = []int{0, 8, 20}[r.Intn(3)]
+		stats.Inc("c.histories_with_10_to_40_keys")
+	}
 	w := c10NewCacheWorld(obs, stats, optEnabled, optTtl, maxSize)
-	st.Emit(fmt.Sprintf("cnew %s %d %d", c10B(optEnabled), optTtl, maxSize), "ok")
+	st.Emit(fmt.Sprintf("cnew %s %d %d", c10B(optEnabled), optTtl, maxSize), c10Line("ok", ""))
 	stats.Inc("c.histories")
 	if maxSize > 0 {
 		stats.Inc("c.histories_with_lru_limit")
 	}
 	g.newPools()
-	h := &c10Hist{w: w, st: st, r: r, g: g, stats: stats, fixed: map[string]int{}, maxSize: maxSize, lastTtl: 10}
+	h := &c10Hist{w: w, st: st, r: r, g: g, stats: stats, maxSize: maxSize, lastTtl: 10}
 	// key pool: names x qtypes x scopes
+	nKeys := r.Range(1, 6)
+	if many {
+		nKeys = r.Range(10, 40)
+	}
 	var keys []c10Key
-	for n := r.Range(1, 6); n > 0; n-- {
-		keys = append(keys, c10Key{c10Names[r.Intn(len(c10Names))], []uint16{dnsmessage.TypeA, dnsmessage.TypeAAAA}[r.Intn(2)], c10Scopes[r.Intn(len(c10Scopes))]})
+	seen := map[string]bool{}
+	for tries := 0; len(keys) < nKeys && tries < 400; tries++ {
+		k := c10Key{c10Names[r.Intn(len(c10Names))], c10Qtypes[r.Intn(len(c10Qtypes))], c10Scopes[r.Intn(len(c10Scopes))]}
+		if many {
+			k.name = fmt.Sprintf("h%d.example.", r.Intn(30))
+		}
+		if !seen[k.key()] || !many {
+			seen[k.key()] = true
+			keys = append(keys, k)
+		}
+	}
+	randomPut := func(k c10Key) {
+		h.put(k, []int{0, 1, 2, 10, 60, 61, 100, 300}[r.Intn(8)], g.bitmap(), g.answers(), k.scope == "" && r.Chance(0.3))
 	}
 	if scripted {
 		// skeleton that reaches the deferred refresh worker: insert with a long TTL, let >= 60 s pass, look the
 		// entry up (queues a refresh), then mutate the entry (or not) before the worker runs.
 		k := keys[0]
-		h.put(k, []int{100, 300}[r.Intn(2)], g.bitmap(), g.answers())
+		h.put(k, []int{100, 300}[r.Intn(2)], g.bitmap(), g.answers(), false)
 		if len(keys) > 1 && r.Bool() {
-			h.put(keys[1], 300, g.bitmap(), g.answers())
+			h.put(keys[1], 300, g.bitmap(), g.answers(), false)
 		}
 		h.sleep([]time.Duration{60 * time.Second, 61 * time.Second, 75 * time.Second}[r.Intn(3)])
 		if r.Bool() {
@@ -973,9 +1168,9 @@ func c10RunCacheHistory(st *VStream, r *VRand, obs *c10Observer, stats *VStats, 
 		} else {
 			h.hot(k)
 		}
-		switch r.Intn(6) {
+		switch r.Intn(7) {
 		case 0:
-			h.put(k, 100, g.bitmap(), g.answers())
+			h.put(k, 100, g.bitmap(), g.answers(), false)
 		case 1:
 			h.del(k)
 		case 2:
@@ -984,32 +1179,39 @@ func c10RunCacheHistory(st *VStream, r *VRand, obs *c10Observer, stats *VStats, 
 			h.sleep(61 * time.Second)
 			h.look(k, false) // a second refresh queued behind the first
 		case 4:
-			h.put(k, 100, g.bitmap(), g.answers())
+			h.put(k, 100, g.bitmap(), g.answers(), false)
 			h.del(k)
+		case 5:
+			h.reload(h.newBitmaps()) // the queued task points at an object of the previous generation
 		default:
 		}
 		h.work()
 		h.dump()
 	}
 	nOps := r.Range(1, 60)
+	if many {
+		for _, k := range keys { // fill the cache first
+			randomPut(k)
+		}
+	}
 	for i := 0; i < nOps; i++ {
 		k := keys[r.Intn(len(keys))]
 		switch x := r.Intn(100); {
-		case x < 38:
-			h.put(k, []int{0, 1, 2, 10, 60, 61, 100, 300}[r.Intn(8)], g.bitmap(), g.answers())
-		case x < 46:
+		case x < 36:
+			randomPut(k)
+		case x < 44:
 			h.del(k)
-		case x < 52:
+		case x < 50:
 			h.fam(k)
-		case x < 58:
+		case x < 56:
 			h.look(k, r.Chance(0.3))
-		case x < 66:
+		case x < 64:
 			h.hot(k)
-		case x < 74:
+		case x < 72:
 			h.jan()
-		case x < 88:
+		case x < 85:
 			var d time.Duration
-			switch r.Intn(9) {
+			switch r.Intn(10) {
 			case 0:
 				d = time.Millisecond
 			case 1:
@@ -1017,13 +1219,13 @@ func c10RunCacheHistory(st *VStream, r *VRand, obs *c10Observer, stats *VStats, 
 			case 2:
 				d = time.Second
 			case 3:
-				d = time.Duration(h.lastTtl) * time.Second // exactly to the deadline of the last put (if nothing else slept)
+				d = time.Duration(h.lastTtl) * time.Second // around the deadline of the last put (ticks included)
 			case 4:
-				d = time.Duration(h.lastTtl)*time.Second - time.Nanosecond
+				d = time.Duration(h.lastTtl)*time.Second - time.Duration(r.Range(1, 4))*time.Nanosecond
 			case 5:
 				d = 30 * time.Second
 			case 6:
-				d = 60*time.Second - time.Nanosecond
+				d = 60*time.Second - time.Duration(r.Range(1, 4))*time.Nanosecond
 			case 7:
 				d = 60 * time.Second
 			default:
@@ -1033,21 +1235,23 @@ func c10RunCacheHistory(st *VStream, r *VRand, obs *c10Observer, stats *VStats, 
 				d = time.Nanosecond
 			}
 			h.sleep(d)
-		case x < 93:
+		case x < 90:
 			h.work()
-		case x < 97:
+		case x < 94:
 			h.touch(k)
+		case x < 97:
+			h.reload(h.newBitmaps())
 		default:
 			if r.Bool() {
-				h.fixed[strings.TrimSuffix(c10Names[r.Intn(len(c10Names))], ".")] = []int{0, 1, 5, 600}[r.Intn(4)]
+				w.fixed[strings.TrimSuffix(c10Names[r.Intn(len(c10Names))], ".")] = []int{0, 1, 5, 600}[r.Intn(4)]
 				stats.Inc("c.fixed_ttl_set")
 			}
 			h.dump()
 		}
 	}
 	h.dump()
-	if w.stale {
-		stats.Inc("c.histories_with_refresh_task_for_replaced_or_removed_entry")
+	if w.gen >= 2 {
+		stats.Inc("c.histories_with_two_or_more_reloads")
 	}
 	// leave nothing behind in the bubble
 	for len(w.ctrl.bpfUpdateCh) > 0 {
@@ -1055,10 +1259,22 @@ func c10RunCacheHistory(st *VStream, r *VRand, obs *c10Observer, stats *VStats, 
 	}
 }
 
-// Probe (outside the property's history alphabet, reported separately): the tail of
+// what the next generation's domain matcher answers for each name ("" = entries without answers)
+func (h *c10Hist) newBitmaps() map[string]string {
+	res := map[string]string{"": h.g.bitmap()}
+	names := append([]string{}, c10Names...)
+	for i := 0; i < 30; i++ {
+		names = append(names, fmt.Sprintf("h%d.example.", i))
+	}
+	for _, n := range names {
+		res[n] = h.g.bitmap()
+	}
+	return res
+}
+
+// Probe (outside the property's history alphabet, reported as a note): the tail of
 // ControlPlane.RebuildReloadDatapath — clearReloadDomainRoutingMap on a generation whose tracker is already
-// populated, then CloneDnsCache + RestoreReloadCache (+ the refresh worker).  The first and last steps are the
-// real functions; BuildKernspace in between needs real BPF objects and is skipped.
+// populated, then CloneDnsCache + RestoreReloadCache.  BuildKernspace in between needs real BPF objects and is skipped.
 func c10RollbackProbe(obs *c10Observer, stats *VStats) string {
 	w := c10NewCacheWorld(obs, stats, false, 0, 0)
 	bm := c10ParseBits("3.40", 32)
@@ -1067,7 +1283,7 @@ func c10RollbackProbe(obs *c10Observer, stats *VStats) string {
 		for _, a := range ans {
 			rrs = append(rrs, c10MakeAns(a, k.name))
 		}
-		w.nextBitmap = bm
+		w.matcher.next = bm
 		if err := w.ctrl.UpdateDnsCacheTtlWithKey(k.key(), k.name, k.qtype, rrs, nil, nil, 300); err != nil {
 			panic(err)
 		}
@@ -1082,26 +1298,53 @@ func c10RollbackProbe(obs *c10Observer, stats *VStats) string {
 	}
 	cache := w.ctrl.CloneCacheForReload()
 	w.ctrl.RestoreReloadCache(cache, func(string) []uint32 { return bm }, time.Now())
-	queued := len(w.ctrl.bpfUpdateCh)
 	for len(w.ctrl.bpfUpdateCh) > 0 {
 		w.ctrl.processBpfUpdateTask(<-w.ctrl.bpfUpdateCh, false)
 	}
 	calls := obs.takeCalls()
 	after, n := w.mirror()
-	return fmt.Sprintf("rollback before_mirror=%s before_table=%d cache=%d refreshes_applied=%d after_mirror=%s after_table=%d %s",
-		c10B(before), nBefore, n, queued, c10B(after), len(obs.shadow), calls)
+	return fmt.Sprintf("rollback before_mirror=%s before_table=%d cache=%d after_mirror=%s after_table=%d %s",
+		c10B(before), nBefore, n, c10B(after), len(obs.shadow), calls)
 }
 
-// Probe (a concurrency schedule, outside the sequential histories of the property): the cache map mutation
-// and the tracker sync of one operation are two steps without a common lock. Another goroutine's complete
-// operation on the same key is run between them (all real code, a legal schedule).
+// Probe (inside the property): a reload with more cached entries than the refresh queue has slots (1024).
+func c10BigReloadProbe(obs *c10Observer, stats *VStats) string {
+	w := c10NewCacheWorld(obs, stats, false, 0, 0)
+	const n = 1500
+	for i := 0; i < n; i++ {
+		name := fmt.Sprintf("h%d.example.", i)
+		w.matcher.next = c10ParseBits("3", 32)
+		rr := c10MakeAns(fmt.Sprintf("4:%08x", 0x0a000000+i+1), name)
+		if err := w.ctrl.UpdateDnsCacheTtlWithKey(name+"1", name, dnsmessage.TypeA, []dnsmessage.RR{rr}, nil, nil, 3600); err != nil {
+			panic(err)
+		}
+	}
+	h := &c10Hist{w: w, st: VOpenStream("c10big"), stats: stats}
+	defer h.st.Close()
+	nb := map[string]string{}
+	for i := 0; i < n; i++ {
+		nb[fmt.Sprintf("h%d.example.", i)] = "7"
+	}
+	h.reload(nb)
+	queued := len(w.ctrl.bpfUpdateCh)
+	for len(w.ctrl.bpfUpdateCh) > 0 {
+		w.bg.processBpfUpdateTask(<-w.ctrl.bpfUpdateCh, false)
+	}
+	obs.takeCalls()
+	ok, cached := w.mirror()
+	return fmt.Sprintf("bigreload entries=%d cached=%d table=%d queued=%d mirror=%s", n, cached, len(obs.shadow), queued, c10B(ok))
+}
+
+// Probe (a concurrency schedule, outside the sequential histories of the property; reported as a note): the
+// cache map mutation and the tracker sync of one operation are two steps without a common lock. Another
+// goroutine's complete operation on the same key is run between them (all real code, a legal schedule).
 func c10RaceProbe(obs *c10Observer, stats *VStats) string {
 	k := c10Key{"a.com.", dnsmessage.TypeA, ""}
 	bm := c10ParseBits("7", 32)
 	mk := func() (*c10Cache, func(ans string)) {
 		w := c10NewCacheWorld(obs, stats, false, 0, 0)
 		return w, func(ans string) {
-			w.nextBitmap = bm
+			w.matcher.next = bm
 			if err := w.ctrl.UpdateDnsCacheTtlWithKey(k.key(), k.name, k.qtype, []dnsmessage.RR{c10MakeAns(ans, k.name)}, nil, nil, 300); err != nil {
 				panic(err)
 			}
@@ -1137,7 +1380,7 @@ func TestVerifC10(t *testing.T) {
 	g := &c10Gen{r: r, stats: stats}
 	histories := 300
 	if VThorough() {
-		histories = 15000
+		histories = 12000
 	}
 	for h := 0; h < histories; h++ {
 		scripted := h%4 == 3
@@ -1145,13 +1388,14 @@ func TestVerifC10(t *testing.T) {
 			c10RunCacheHistory(st, r, obs, stats, g, scripted)
 		})
 	}
-	synctest.Test(t, func(t *testing.T) {
-		line := VRecover(func() string { return c10RollbackProbe(obs, stats) })
-		_ = os.WriteFile(filepath.Join(VOutDir(), "c10.rollback.txt"), []byte(line+"\n"), 0o644)
-	})
-	synctest.Test(t, func(t *testing.T) {
-		line := VRecover(func() string { return c10RaceProbe(obs, stats) })
-		_ = os.WriteFile(filepath.Join(VOutDir(), "c10.race.txt"), []byte(line+"\n"), 0o644)
-	})
+	probe := func(name string, f func(*c10Observer, *VStats) string) {
+		synctest.Test(t, func(t *testing.T) {
+			line := VRecover(func() string { return f(obs, stats) })
+			_ = os.WriteFile(filepath.Join(VOutDir(), name), []byte(line+"\n"), 0o644)
+		})
+	}
+	probe("c10.rollback.txt", c10RollbackProbe)
+	probe("c10.race.txt", c10RaceProbe)
+	probe("c10.bigreload.txt", c10BigReloadProbe)
 	stats.Write("c10")
 }
